@@ -1,18 +1,18 @@
 // Corpus for the normalisation family (C08, C09, C12).
 #pragma once
 #include "corpus.h"
-static inline std::vector<Str> norm_tokens() { return { "", ".", "..", "a", "c:d", "%2e", "%2E%2E", "A", "%41", "%7e" }; }
+static inline std::vector<Str> norm_tokens() { return { "", ".", "..", "a", "c:d", "1:b", ":", "%2e", "%2E%2E", "A", "%41", "%7e" }; }
 
 // size 0: small, 1: quick, 2: thorough
 static inline std::vector<Str> norm_corpus(int size) {
     std::vector<Str> v; std::set<Str> seen;
     auto add = [&](const Str &s) { if (ref::is_uri_reference(s) && seen.insert(s).second) v.push_back(s); };
     // (a) component product with case / percent-encoding variants
-    std::vector<const char *> scheme = { 0, "s", "S", "aB+c" }, user = { 0, "u", "%41%7e", "%3a%3A", "U%2dx" },
-        host = { "", "h", "H", "A%3a%41", "%7E.x", "1.2.3.4", "[::A]", "[vF.X]", "[VF.x%]" }, port = { 0, "80" },
+    std::vector<const char *> scheme = { 0, "s", "S", "aB+c" }, user = { 0, "u", "%41%7e", "%3a%3A", "U%2dx", "u%3a" },
+        host = { "", "h", "H", "A%3a%41", "%7E.x", "H%2f", "x%3Ay", "%3a", "1.2.3.4", "[::A]", "[vF.X]", "[VF.x%]" }, port = { 0, "80" },
         path = { "", "/", "/a", "/%41", "/%7e/%2F/%2f", "a", "%61/B", "/a/%2e/%2E%2E/b", "..", "./%3a", "/x%7e", "/%7ex", "/%4ax" },
         query = { 0, "", "%41%3d%3D", "q=%7E", "%41x", "x%7e" }, frag = { 0, "%41", "F%2f" };
-    if (size == 0) { scheme = { 0, "S" }; user = { 0, "%41%7e" }; host = { "H", "A%3a%41", "[::A]", "[vF.X]" }; port = { 0 }; path = { "", "/%7e/%2F/%2f", "%61/B", "/a/%2e/%2E%2E/b" }; query = { 0, "q=%7E" }; frag = { 0, "F%2f" }; }
+    if (size == 0) { scheme = { 0, "S" }; user = { 0, "%41%7e" }; host = { "H", "A%3a%41", "H%2f", "[::A]", "[vF.X]" }; port = { 0 }; path = { "", "/%7e/%2F/%2f", "%61/B", "/a/%2e/%2E%2E/b" }; query = { 0, "q=%7E" }; frag = { 0, "F%2f" }; }
     for (auto sc : scheme) for (int hi = -1; hi < (int)host.size(); hi++) for (auto us : user) for (auto po : port) {
         if (hi < 0 && (us || po)) continue;
         Str auth; if (hi >= 0) { auth = "//"; if (us) auth += Str(us) + "@"; auth += host[hi]; if (po) auth += Str(":") + po; }
